@@ -171,92 +171,94 @@ func runC07(c *Ctx) {
 	}
 	nh := c.Pick(200, 6000)
 	for i := 0; i < nh; i++ {
-		rng := c.Rng("c07", i)
-		kinds := []string{"uniform", "pushy", "alternate", "fill-drain", "wrap"}
-		kind := kinds[i%len(kinds)]
-		h := c.NewHist(kind)
-		st := &c07state{}
-		init := []int{-1, -2, 0, 1, 2, 3, 4, 5, 7, 8, 16}[rng.Intn(11)]
-		h.Emit(c07exec(c, st, Op{"op": "new", "v": init}, rng))
-		nops := 20 + rng.Intn(c.Pick(60, 120))
-		next := 1
-		for j := 0; j < nops; j++ {
-			var op Op
-			r := rng.Intn(100)
-			fresh := func(name string) Op { next++; return Op{"op": name, "v": next - 1} }
-			switch kind {
-			case "uniform":
-				switch {
-				case r < 30:
-					op = fresh("add")
-				case r < 55:
-					op = fresh("push")
-				case r < 75:
-					op = Op{"op": "pop"}
-				case r < 95:
-					op = Op{"op": "poplast"}
-				default:
-					op = Op{"op": "clear"}
-				}
-			case "pushy":
-				switch {
-				case r < 55:
-					op = fresh("push")
-				case r < 70:
-					op = fresh("add")
-				case r < 85:
-					op = Op{"op": "poplast"}
-				default:
-					op = Op{"op": "pop"}
-				}
-			case "alternate":
-				switch j % 4 {
-				case 0:
-					op = fresh("add")
-				case 1:
-					op = fresh("push")
-				case 2:
-					if r < 50 {
+		c.genGuard(func() {
+			rng := c.Rng("c07", i)
+			kinds := []string{"uniform", "pushy", "alternate", "fill-drain", "wrap"}
+			kind := kinds[i%len(kinds)]
+			h := c.NewHist(kind)
+			st := &c07state{}
+			init := []int{-1, -2, 0, 1, 2, 3, 4, 5, 7, 8, 16}[rng.Intn(11)]
+			h.Emit(c07exec(c, st, Op{"op": "new", "v": init}, rng))
+			nops := 20 + rng.Intn(c.Pick(60, 120))
+			next := 1
+			for j := 0; j < nops; j++ {
+				var op Op
+				r := rng.Intn(100)
+				fresh := func(name string) Op { next++; return Op{"op": name, "v": next - 1} }
+				switch kind {
+				case "uniform":
+					switch {
+					case r < 30:
+						op = fresh("add")
+					case r < 55:
+						op = fresh("push")
+					case r < 75:
 						op = Op{"op": "pop"}
+					case r < 95:
+						op = Op{"op": "poplast"}
+					default:
+						op = Op{"op": "clear"}
+					}
+				case "pushy":
+					switch {
+					case r < 55:
+						op = fresh("push")
+					case r < 70:
+						op = fresh("add")
+					case r < 85:
+						op = Op{"op": "poplast"}
+					default:
+						op = Op{"op": "pop"}
+					}
+				case "alternate":
+					switch j % 4 {
+					case 0:
+						op = fresh("add")
+					case 1:
+						op = fresh("push")
+					case 2:
+						if r < 50 {
+							op = Op{"op": "pop"}
+						} else {
+							op = fresh("push")
+						}
+					default:
+						if r < 40 {
+							op = Op{"op": "poplast"}
+						} else {
+							op = fresh("add")
+						}
+					}
+				case "fill-drain":
+					phase := (j / 12) % 2
+					if phase == 0 {
+						if r < 50 {
+							op = fresh("add")
+						} else {
+							op = fresh("push")
+						}
+					} else {
+						if r < 50 {
+							op = Op{"op": "pop"}
+						} else {
+							op = Op{"op": "poplast"}
+						}
+					}
+				default: // wrap: keep the queue near full while the head moves
+					if st.q.Len() > 0 && r < 45 {
+						if r < 25 {
+							op = Op{"op": "pop"}
+						} else {
+							op = Op{"op": "poplast"}
+						}
+					} else if r < 75 {
+						op = fresh("add")
 					} else {
 						op = fresh("push")
 					}
-				default:
-					if r < 40 {
-						op = Op{"op": "poplast"}
-					} else {
-						op = fresh("add")
-					}
 				}
-			case "fill-drain":
-				phase := (j / 12) % 2
-				if phase == 0 {
-					if r < 50 {
-						op = fresh("add")
-					} else {
-						op = fresh("push")
-					}
-				} else {
-					if r < 50 {
-						op = Op{"op": "pop"}
-					} else {
-						op = Op{"op": "poplast"}
-					}
-				}
-			default: // wrap: keep the queue near full while the head moves
-				if st.q.Len() > 0 && r < 45 {
-					if r < 25 {
-						op = Op{"op": "pop"}
-					} else {
-						op = Op{"op": "poplast"}
-					}
-				} else if r < 75 {
-					op = fresh("add")
-				} else {
-					op = fresh("push")
-				}
+				h.Emit(c07exec(c, st, op, rng))
 			}
-			h.Emit(c07exec(c, st, op, rng))
-		}
+		})
 	}
 }
